@@ -15,8 +15,20 @@ History-level layer (audit 1): `sumMint` / `sumBurn` / `createdIn` are folds ove
 results only; `ghosts_are_history_sums` ties the ghost fields `minted` / `burned` / `created` to them and
 `supply_eq_mints_minus_burns` is stated on them.  Clauses that are FALSE at full strength are proved false
 by reachable witnesses (`supply_clause_needs_empty_start`, `fee_grantee_acts_for_admin`,
-`wasm_mint_credits_third_party`, `mint_burn_touch_only_admin_unrestricted_false`) next to the strongest
-true statement.
+`grantee_creates_in_granters_namespace`, `wasm_mint_credits_third_party`,
+`mint_burn_touch_only_admin_unrestricted_false`) next to the strongest true statement.
+
+Audit 2: signer provenance is stated for EVERY tokenfactory transaction, create included
+(`tx_signer_provenance_history`, `creator_acts_history`, `only_creator_signs_create_without_grants`,
+`create_charges_creator`); the start state `St.genesis … gr` has an ARBITRARY table of pre-existing fee
+allowances (the signer clauses carry the disjunct `gr c s`); "never minted or burned" is stated on the
+op list (`non_factory_never_minted_or_burned`).
+
+Representation of denominations: a `Denom` is the list of the `/`-separated parts of the string, a part
+being the bech32 text of a table address (`Part.addr`) or any other text.  The map to strings is
+injective on VALID denominations (`valid_denom_parts_have_no_slash`) as long as no `Part.txt` spells
+the bech32 text of an address; `x ≠ d` in the theorems means "different list value" and is to be read
+under that proviso.
 -/
 import PalomaModel.Model.TokenFactory
 
@@ -657,8 +669,8 @@ structure Inv (g st : St) : Prop where
   metaMono : ∀ d, (g.dmeta d).isSome = true → (st.dmeta d).isSome = true
   ghost : ∀ d, d ∉ st.created → st.minted d = 0 ∧ st.burned d = 0
 
-theorem Inv.genesis (bal : Addr → Denom → Nat) (supply : Denom → Nat) (dmeta : Denom → Option Nat) (fee : Nat) :
-    Inv (St.genesis bal supply dmeta fee) (St.genesis bal supply dmeta fee) where
+theorem Inv.genesis (bal : Addr → Denom → Nat) (supply : Denom → Nat) (dmeta : Denom → Option Nat) (fee : Nat) (gr : Addr → Addr → Bool) :
+    Inv (St.genesis bal supply dmeta fee gr) (St.genesis bal supply dmeta fee gr) where
   ledger := by intro d; simp [St.genesis]
   adminCreated := by intro d a h; simp [St.genesis] at h
   createdMeta := by intro d h; simp [St.genesis] at h
@@ -1702,14 +1714,14 @@ ASSUMPTION (external, on the start state): `supply₀ d = 0`.  It cannot be drop
 `HasSupply(factory/c/subdenom)`: coins that another module (or the genesis file) put under a
 factory-shaped name stay in the supply of the token created later under that name. -/
 theorem supply_eq_mints_minus_burns (bal : Addr → Denom → Nat) (supply : Denom → Nat)
-    (dmeta : Denom → Option Nat) (fee : Nat) (ops : List Op) (d : Denom) :
-    let g := St.genesis bal supply dmeta fee
+    (dmeta : Denom → Option Nat) (fee : Nat) (gr : Addr → Addr → Bool) (ops : List Op) (d : Denom) :
+    let g := St.genesis bal supply dmeta fee gr
     let st := run g ops
     st.supply d + sumBurn g d ops = supply d + sumMint g d ops ∧
     (supply d = 0 → sumBurn g d ops ≤ sumMint g d ops ∧ st.supply d = sumMint g d ops - sumBurn g d ops) ∧
     st.minted d = sumMint g d ops ∧ st.burned d = sumBurn g d ops := by
   intro g st
-  have inv : Inv g st := (Inv.genesis bal supply dmeta fee).run ops
+  have inv : Inv g st := (Inv.genesis bal supply dmeta fee gr).run ops
   have hl : st.supply d + st.burned d = supply d + st.minted d := inv.ledger d
   obtain ⟨hm, hb, _⟩ := ghosts_are_history_sums g ops d
   have hm' : st.minted d = sumMint g d ops := by
@@ -1726,8 +1738,8 @@ exactly when a successful create operation for it occurs in the history; from th
 its supply moves only by its admin's mints and burns (`supply_changes_only_by_admin`), and before
 it the supply is the untouched genesis supply (`non_factory_supply_constant`). -/
 theorem created_iff_successful_create (bal : Addr → Denom → Nat) (supply : Denom → Nat)
-    (dmeta : Denom → Option Nat) (fee : Nat) (ops : List Op) (d : Denom) :
-    let g := St.genesis bal supply dmeta fee
+    (dmeta : Denom → Option Nat) (fee : Nat) (gr : Addr → Addr → Bool) (ops : List Op) (d : Denom) :
+    let g := St.genesis bal supply dmeta fee gr
     d ∈ (run g ops).created ↔
       ∃ pre op post, ops = pre ++ op :: post ∧ (step (run g pre) op).2 = .ok ∧ op.newDenom = some d := by
   intro g
@@ -1789,14 +1801,14 @@ into existence (bank metadata appears) in a step does so through a create operat
 owns the namespace the denomination lies in; and every denomination on the factory's list is of the
 form `factory/<creator>/<sub>` for the creator of the operation that created it. -/
 theorem new_denoms_only_in_own_namespace (bal : Addr → Denom → Nat) (supply : Denom → Nat)
-    (dmeta : Denom → Option Nat) (fee : Nat) (ops : List Op) (op : Op) (d : Denom) :
-    let st := run (St.genesis bal supply dmeta fee) ops
+    (dmeta : Denom → Option Nat) (fee : Nat) (gr : Addr → Addr → Bool) (ops : List Op) (op : Op) (d : Denom) :
+    let st := run (St.genesis bal supply dmeta fee gr) ops
     let st' := (step st op).1
     (st.dmeta d = none → st'.dmeta d ≠ none →
       ∃ c sub, op.creates = some (c, sub) ∧ d = tokenDenom c sub ∧ (step st op).2 = .ok) ∧
     (∀ x ∈ st.created, ∃ c sub, x = tokenDenom c sub ∧ deconstruct x = some (c, normSub sub)) := by
   intro st st'
-  have inv : Inv (St.genesis bal supply dmeta fee) st := (Inv.genesis bal supply dmeta fee).run ops
+  have inv : Inv (St.genesis bal supply dmeta fee gr) st := (Inv.genesis bal supply dmeta fee gr).run ops
   refine ⟨?_, inv.createdNs⟩
   intro h0 h1
   have hstep : step st op = (st', (step st op).2) := rfl
@@ -1883,11 +1895,11 @@ theorem no_recreate {st st' : St} {op : Op} {r : Res} (h : step st op = (st', r)
 /-- **no_recreate**, over histories: the denominations created through the factory are pairwise
 distinct, exist, and did not exist in the bank before. -/
 theorem created_once (bal : Addr → Denom → Nat) (supply : Denom → Nat)
-    (dmeta : Denom → Option Nat) (fee : Nat) (ops : List Op) :
-    let st := run (St.genesis bal supply dmeta fee) ops
+    (dmeta : Denom → Option Nat) (fee : Nat) (gr : Addr → Addr → Bool) (ops : List Op) :
+    let st := run (St.genesis bal supply dmeta fee gr) ops
     st.created.Nodup ∧ ∀ d ∈ st.created, (st.dmeta d).isSome = true ∧ dmeta d = none := by
   intro st
-  have inv : Inv (St.genesis bal supply dmeta fee) st := (Inv.genesis bal supply dmeta fee).run ops
+  have inv : Inv (St.genesis bal supply dmeta fee gr) st := (Inv.genesis bal supply dmeta fee gr).run ops
   exact ⟨inv.nodup, fun d hd => ⟨inv.createdMeta d hd, inv.createdFresh d hd⟩⟩
 
 /-- **non_factory_untouchable** ("tokens that were not created by the factory can never be minted
@@ -1946,12 +1958,12 @@ theorem non_factory_untouchable {st st' : St} {op : Op} {r : Res} {d : Denom}
 (in particular every name that does not deconstruct: native, malformed, foreign prefix, non-address
 creator) never gets an admin, is never minted or burned, and keeps its genesis supply for ever. -/
 theorem non_factory_supply_constant (bal : Addr → Denom → Nat) (supply : Denom → Nat)
-    (dmeta : Denom → Option Nat) (fee : Nat) (ops : List Op) (d : Denom) :
-    let st := run (St.genesis bal supply dmeta fee) ops
+    (dmeta : Denom → Option Nat) (fee : Nat) (gr : Addr → Addr → Bool) (ops : List Op) (d : Denom) :
+    let st := run (St.genesis bal supply dmeta fee gr) ops
     (deconstruct d = none → d ∉ st.created) ∧
     (d ∉ st.created → st.admin d = none ∧ st.minted d = 0 ∧ st.burned d = 0 ∧ st.supply d = supply d) := by
   intro st
-  have inv : Inv (St.genesis bal supply dmeta fee) st := (Inv.genesis bal supply dmeta fee).run ops
+  have inv : Inv (St.genesis bal supply dmeta fee gr) st := (Inv.genesis bal supply dmeta fee gr).run ops
   constructor
   · intro hd hmem
     obtain ⟨c, sub, _, hdec⟩ := inv.createdNs d hmem
@@ -1997,53 +2009,325 @@ theorem stranger_rejected {st st' : St} {op : Op} {r : Res} {s c : Addr}
     · rw [hg] at h1; cases h1
   exact ⟨hr, step_rej h hr⟩
 
+/-- **signer provenance** for EVERY tokenfactory transaction — create, mint, burn, change-admin,
+set-metadata — over histories.  Take any history from any bank state with an empty factory and ANY
+table `gr` of fee allowances that exist already, cut it anywhere (`pre`), and let the next operation be
+a SUCCESSFUL transaction that names `c` as its creator / sender and is signed by `s`.  Then `s = c`, or
+`c`'s allowance to `s` is in force at that moment AND it was there from the start (`gr c s`) or `pre`
+contains a successful feegrant `grant c s` — an allowance granted BY `c` ITSELF to `s`.  (A forged
+`Metadata.Signers = [c]` with somebody else signing, `mode = 1`, never succeeds.)
+
+ASSUMPTIONS (SDK): a transaction's signer is authenticated by signature verification;
+`MsgGrantAllowance` is signed by the granter. -/
+theorem tx_signer_provenance_history (bal : Addr → Denom → Nat) (supply : Denom → Nat)
+    (dmeta : Denom → Option Nat) (fee : Nat) (gr : Addr → Addr → Bool) (pre : List Op) (op : Op) (s c : Addr) :
+    let g := St.genesis bal supply dmeta fee gr
+    (step (run g pre) op).2 = .ok → op.signed = some (s, c) →
+      s = c ∨ ((run g pre).grant c s = true ∧
+        (gr c s = true ∨ ∃ p1 p2, pre = p1 ++ Op.grant c s :: p2 ∧ (step (run g p1) (.grant c s)).2 = .ok)) := by
+  intro g hok hs
+  have hstep : step (run g pre) op = ((step (run g pre) op).1, .ok) := by rw [← hok]
+  rcases signer_authorised hstep hs with h1 | h1
+  · exact Or.inl h1
+  · right
+    refine ⟨h1, ?_⟩
+    rcases grant_from_history g pre c s h1 with h2 | h2
+    · exact Or.inl h2
+    · exact Or.inr h2
+
 /-- **only_admin_acts** over histories ("for every token created through the token factory, only its
 current admin can mint it, burn it, change its metadata or hand the admin role to someone else").
-Take any history from any bank state with an empty factory, cut it anywhere (`pre`), and let the
-next operation be a SUCCESSFUL admin action on `d` for the account `c`.  Then
+Take any history from any bank state with an empty factory (any pre-existing allowance table `gr`), cut
+it anywhere (`pre`), and let the next operation be a SUCCESSFUL admin action on `d` for the account `c`.
+Then
 
 * `c` is the admin of `d` at that moment;
 * `d` was created through the factory: a successful create operation for exactly `d` occurs in `pre`;
 * if the action is a transaction (not a binding call by the contract `c` itself) signed by `s`, then
-  `s = c`, or `pre` contains a successful feegrant `grant c s` — an allowance granted BY THE ADMIN
-  ITSELF to `s` (Paloma's delegation rule in `VerifyAuthorisedSignatureDecorator`).
+  `s = c`, or `c` had an allowance to `s` from the start (`gr c s`), or `pre` contains a successful
+  feegrant `grant c s` — an allowance granted BY THE ADMIN ITSELF to `s` (Paloma's delegation rule in
+  `VerifyAuthorisedSignatureDecorator`).  So "only its current admin" holds as "only its current admin
+  or an account the admin has given a fee allowance to"; the strict reading is refuted by
+  `fee_grantee_acts_for_admin`.
 
 ASSUMPTIONS (SDK / wasmd): a transaction's signer is authenticated by signature verification, a
 binding call's `contractAddr` is the calling contract, `MsgGrantAllowance` is signed by the granter. -/
 theorem only_admin_acts_history (bal : Addr → Denom → Nat) (supply : Denom → Nat)
-    (dmeta : Denom → Option Nat) (fee : Nat) (pre : List Op) (op : Op) (c : Addr) (d : Denom) :
-    let g := St.genesis bal supply dmeta fee
+    (dmeta : Denom → Option Nat) (fee : Nat) (gr : Addr → Addr → Bool) (pre : List Op) (op : Op) (c : Addr) (d : Denom) :
+    let g := St.genesis bal supply dmeta fee gr
     (step (run g pre) op).2 = .ok → op.adminAct = some (c, d) →
       (run g pre).admin d = some c ∧
       (∃ p1 opc p2, pre = p1 ++ opc :: p2 ∧ (step (run g p1) opc).2 = .ok ∧ opc.newDenom = some d) ∧
       (∀ s, op.signed = some (s, c) →
-        s = c ∨ ∃ p1 p2, pre = p1 ++ Op.grant c s :: p2 ∧ (step (run g p1) (.grant c s)).2 = .ok) := by
+        s = c ∨ gr c s = true ∨
+          ∃ p1 p2, pre = p1 ++ Op.grant c s :: p2 ∧ (step (run g p1) (.grant c s)).2 = .ok) := by
   intro g hok ha
   have hstep : step (run g pre) op = ((step (run g pre) op).1, .ok) := by rw [← hok]
   have hadm := only_admin_acts hstep ha
-  have inv : Inv g (run g pre) := (Inv.genesis bal supply dmeta fee).run pre
+  have inv : Inv g (run g pre) := (Inv.genesis bal supply dmeta fee gr).run pre
   refine ⟨hadm, ?_, ?_⟩
-  · exact (created_iff_successful_create bal supply dmeta fee pre d).mp (inv.adminCreated d c hadm)
+  · exact (created_iff_successful_create bal supply dmeta fee gr pre d).mp (inv.adminCreated d c hadm)
   · intro s hs
-    rcases signer_authorised hstep hs with h1 | h1
+    rcases tx_signer_provenance_history bal supply dmeta fee gr pre op s c hok hs with h1 | ⟨_, h2 | h2⟩
     · exact Or.inl h1
-    · rcases grant_from_history g pre c s h1 with h2 | h2
-      · simp [g, St.genesis] at h2
-      · exact Or.inr h2
+    · exact Or.inr (Or.inl h2)
+    · exact Or.inr (Or.inr h2)
 
-/-- **only_admin_acts**, grant-free corollary: as long as the admin `c` of `d` has never issued a
-fee allowance (`pre` contains no `grant c _` operation at all), every successful mint / burn /
-change-admin / set-metadata transaction on `d` in the history is signed by `c` in person. -/
+/-- **only_admin_acts**, grant-free corollary: as long as the admin `c` of `d` has never had a fee
+allowance out (none at the start, and `pre` contains no `grant c _` operation at all), every
+successful mint / burn / change-admin / set-metadata transaction on `d` in the history is signed by
+`c` in person. -/
 theorem only_admin_signs_without_grants (bal : Addr → Denom → Nat) (supply : Denom → Nat)
-    (dmeta : Denom → Option Nat) (fee : Nat) (pre : List Op) (op : Op) (s c : Addr) (d : Denom) :
-    let g := St.genesis bal supply dmeta fee
+    (dmeta : Denom → Option Nat) (fee : Nat) (gr : Addr → Addr → Bool) (pre : List Op) (op : Op) (s c : Addr) (d : Denom) :
+    let g := St.genesis bal supply dmeta fee gr
     (step (run g pre) op).2 = .ok → op.adminAct = some (c, d) → op.signed = some (s, c) →
-      (∀ x, Op.grant c x ∉ pre) → s = c ∧ (run g pre).admin d = some s := by
-  intro g hok ha hs hng
-  obtain ⟨hadm, _, hsig⟩ := only_admin_acts_history bal supply dmeta fee pre op c d hok ha
-  rcases hsig s hs with h1 | ⟨p1, p2, rfl, _⟩
+      (∀ x, gr c x = false) → (∀ x, Op.grant c x ∉ pre) → s = c ∧ (run g pre).admin d = some s := by
+  intro g hok ha hs hg0 hng
+  obtain ⟨hadm, _, hsig⟩ := only_admin_acts_history bal supply dmeta fee gr pre op c d hok ha
+  rcases hsig s hs with h1 | h1 | ⟨p1, p2, rfl, _⟩
   · exact ⟨h1, by rw [h1]; exact hadm⟩
+  · rw [hg0 s] at h1; cases h1
   · exact absurd (by simp) (hng s)
+
+/-- **namespace**, what a successful create costs and whom: the creation fee (`Params.DenomCreationFee`,
+possibly 0) is taken from the balance of the account `c` NAMED AS CREATOR — the owner of the namespace —
+and paid into the community pool; it is not taken from the transaction's signer.  No other balance and
+no supply moves. -/
+theorem create_charges_creator {st st' : St} {op : Op} {c : Addr} {sub : Denom}
+    (h : step st op = (st', .ok)) (hc : op.creates = some (c, sub)) :
+    st.fee ≤ st.bal c feeDenom ∧ st'.supply = st.supply ∧
+    ∀ a x, st'.bal a x =
+      if x = feeDenom then
+        (if c = poolAcc then st.bal a x
+         else if a = c then st.bal a x - st.fee else if a = poolAcc then st.bal a x + st.fee else st.bal a x)
+      else st.bal a x := by
+  have shape : ∀ {s1 : St}, hCreate st c sub = (s1, .ok) →
+      st.fee ≤ st.bal c feeDenom ∧ s1.supply = st.supply ∧ s1.bal = (st.move c poolAcc feeDenom st.fee).bal := by
+    intro s1 h1
+    obtain ⟨_, _, _, _, hf, rfl⟩ := hCreate_ok h1
+    exact ⟨hf, rfl, rfl⟩
+  have fin : ∀ {s1 : St}, st.fee ≤ st.bal c feeDenom ∧ s1.supply = st.supply ∧
+      s1.bal = (st.move c poolAcc feeDenom st.fee).bal →
+      st.fee ≤ st.bal c feeDenom ∧ s1.supply = st.supply ∧
+      ∀ a x, s1.bal a x =
+        if x = feeDenom then
+          (if c = poolAcc then st.bal a x
+           else if a = c then st.bal a x - st.fee else if a = poolAcc then st.bal a x + st.fee else st.bal a x)
+        else st.bal a x := by
+    intro s1 ⟨hf, hs, hb⟩
+    refine ⟨hf, hs, ?_⟩
+    intro a x
+    rw [hb]
+    exact move_bal st c poolAcc feeDenom st.fee hf a x
+  cases op with
+  | create mode s c' sub' =>
+    simp only [Op.creates, Option.some.injEq, Prod.mk.injEq] at hc
+    obtain ⟨rfl, rfl⟩ := hc
+    exact fin (shape (step_create_ok h).2)
+  | wcreate a sub' md =>
+    simp only [Op.creates, Option.some.injEq, Prod.mk.injEq] at hc
+    obtain ⟨rfl, rfl⟩ := hc
+    obtain ⟨s1, h1, h2⟩ := wCreate_ok h
+    obtain ⟨p1, p2, p3⟩ := shape h1
+    rcases h2 with ⟨_, rfl⟩ | ⟨m, _, hm2⟩
+    · exact fin ⟨p1, p2, p3⟩
+    · obtain ⟨_, _, _, rfl⟩ := wSetMeta_ok hm2
+      exact fin ⟨p1, p2, p3⟩
+  | mint _ _ _ _ _ => simp [Op.creates] at hc
+  | burn _ _ _ _ _ => simp [Op.creates] at hc
+  | chadmin _ _ _ _ _ => simp [Op.creates] at hc
+  | setmeta _ _ _ _ _ _ => simp [Op.creates] at hc
+  | wmint _ _ _ _ => simp [Op.creates] at hc
+  | wburn _ _ _ _ => simp [Op.creates] at hc
+  | wchadmin _ _ _ => simp [Op.creates] at hc
+  | wsetmeta _ _ _ _ _ _ => simp [Op.creates] at hc
+  | send _ _ _ _ => simp [Op.creates] at hc
+  | grant _ _ => simp [Op.creates] at hc
+  | revoke _ _ => simp [Op.creates] at hc
+  | setfee _ => simp [Op.creates] at hc
+
+/-- **namespace** over histories, WHO creates ("a creator can only create denominations inside its own
+factory/<creator>/ namespace").  Take any history from any bank state with an empty factory (any
+pre-existing allowance table `gr`), cut it anywhere (`pre`), and let the next operation be a SUCCESSFUL
+create — message or wasm binding — that names `c` as creator and `sub` as subdenom.  Then
+
+* the denomination created is exactly `factory/c/sub`, it deconstructs back to `c`, it had no bank
+  metadata (neither now nor at the start), no earlier operation of the history created it, and `c` —
+  NOT the signer — becomes its admin;
+* the creation fee is charged to `c` (`create_charges_creator`);
+* if the create is a transaction signed by `s`, then `s = c`, or `c` had an allowance to `s` from the
+  start, or `pre` contains a successful feegrant `grant c s`.  A binding call (`op.signed = none`) is
+  made by the contract `c` itself.
+
+So the clause holds as "a denomination is only ever created in the namespace of the account the
+create NAMES, and that account signed, or had handed a fee allowance to the signer": a fee grantee of
+`c` CAN create in `c`'s namespace, at `c`'s expense — `grantee_creates_in_granters_namespace`.  This is
+the documented delegation rule of `VerifyAuthorisedSignatureDecorator` (property C03), not a separate
+finding.
+
+ASSUMPTIONS (SDK / wasmd): as for `only_admin_acts_history`. -/
+theorem creator_acts_history (bal : Addr → Denom → Nat) (supply : Denom → Nat)
+    (dmeta : Denom → Option Nat) (fee : Nat) (gr : Addr → Addr → Bool) (pre : List Op) (op : Op) (c : Addr)
+    (sub : Denom) :
+    let g := St.genesis bal supply dmeta fee gr
+    (step (run g pre) op).2 = .ok → op.creates = some (c, sub) →
+      op.newDenom = some (tokenDenom c sub) ∧
+      deconstruct (tokenDenom c sub) = some (c, normSub sub) ∧
+      (run g pre).dmeta (tokenDenom c sub) = none ∧ dmeta (tokenDenom c sub) = none ∧
+      (¬ ∃ p1 opc p2, pre = p1 ++ opc :: p2 ∧ (step (run g p1) opc).2 = .ok ∧
+          opc.newDenom = some (tokenDenom c sub)) ∧
+      (step (run g pre) op).1.admin (tokenDenom c sub) = some c ∧
+      (run g pre).fee ≤ (run g pre).bal c feeDenom ∧
+      (∀ s, op.signed = some (s, c) →
+        s = c ∨ gr c s = true ∨
+          ∃ p1 p2, pre = p1 ++ Op.grant c s :: p2 ∧ (step (run g p1) (.grant c s)).2 = .ok) := by
+  intro g hok hc
+  have hstep : step (run g pre) op = ((step (run g pre) op).1, .ok) := by rw [← hok]
+  have inv : Inv g (run g pre) := (Inv.genesis bal supply dmeta fee gr).run pre
+  obtain ⟨hdec, hnone, hadm, _, _⟩ := namespace_of_create hstep hc
+  have hfee := (create_charges_creator hstep hc).1
+  have hnotin : tokenDenom c sub ∉ (run g pre).created := by
+    intro hmem
+    have := inv.createdMeta _ hmem
+    rw [hnone] at this; cases this
+  refine ⟨by simp [Op.newDenom, hc], hdec, hnone, ?_, ?_, hadm, hfee, ?_⟩
+  · cases hg : dmeta (tokenDenom c sub) with
+    | none => rfl
+    | some v =>
+      have := inv.metaMono (tokenDenom c sub) (by simp [g, St.genesis, hg])
+      rw [hnone] at this; cases this
+  · intro hex
+    exact hnotin ((created_iff_successful_create bal supply dmeta fee gr pre _).mpr hex)
+  · intro s hs
+    rcases tx_signer_provenance_history bal supply dmeta fee gr pre op s c hok hs with h1 | ⟨_, h2 | h2⟩
+    · exact Or.inl h1
+    · exact Or.inr (Or.inl h2)
+    · exact Or.inr (Or.inr h2)
+
+/-- **namespace**, grant-free corollary: as long as `c` has never had a fee allowance out (none at the
+start, no `grant c _` operation in `pre`), every successful create TRANSACTION in `c`'s namespace is
+signed by `c` in person; and a successful binding create in `c`'s namespace is a call by the contract
+`c`.  Together with `new_denoms_only_in_own_namespace` (a denomination only ever comes into existence
+through a create operation naming the owner of its namespace): nobody but `c` puts a denomination into
+`factory/c/…`. -/
+theorem only_creator_signs_create_without_grants (bal : Addr → Denom → Nat) (supply : Denom → Nat)
+    (dmeta : Denom → Option Nat) (fee : Nat) (gr : Addr → Addr → Bool) (pre : List Op) (op : Op) (c : Addr)
+    (sub : Denom) :
+    let g := St.genesis bal supply dmeta fee gr
+    (step (run g pre) op).2 = .ok → op.creates = some (c, sub) →
+      (∀ x, gr c x = false) → (∀ x, Op.grant c x ∉ pre) →
+      (∀ s c', op.signed = some (s, c') → s = c ∧ c' = c) ∧
+      (op.signed = none → ∃ md, op = .wcreate c sub md) := by
+  intro g hok hc hg0 hng
+  obtain ⟨_, _, _, _, _, _, _, hsig⟩ := creator_acts_history bal supply dmeta fee gr pre op c sub hok hc
+  constructor
+  · intro s c' hs
+    have hcc : c' = c := by
+      cases op with
+      | create mode s0 c0 sub0 =>
+        simp only [Op.creates, Option.some.injEq, Prod.mk.injEq] at hc
+        simp only [Op.signed, Option.some.injEq, Prod.mk.injEq] at hs
+        rw [← hs.2, hc.1]
+      | wcreate _ _ _ => simp [Op.signed] at hs
+      | mint _ _ _ _ _ => simp [Op.creates] at hc
+      | burn _ _ _ _ _ => simp [Op.creates] at hc
+      | chadmin _ _ _ _ _ => simp [Op.creates] at hc
+      | setmeta _ _ _ _ _ _ => simp [Op.creates] at hc
+      | wmint _ _ _ _ => simp [Op.creates] at hc
+      | wburn _ _ _ _ => simp [Op.creates] at hc
+      | wchadmin _ _ _ => simp [Op.creates] at hc
+      | wsetmeta _ _ _ _ _ _ => simp [Op.creates] at hc
+      | send _ _ _ _ => simp [Op.creates] at hc
+      | grant _ _ => simp [Op.creates] at hc
+      | revoke _ _ => simp [Op.creates] at hc
+      | setfee _ => simp [Op.creates] at hc
+    subst hcc
+    refine ⟨?_, rfl⟩
+    rcases hsig s hs with h1 | h1 | ⟨p1, p2, rfl, _⟩
+    · exact h1
+    · rw [hg0 s] at h1; cases h1
+    · exact absurd (by simp) (hng s)
+  · intro hs
+    cases op with
+    | create _ _ _ _ => simp [Op.signed] at hs
+    | wcreate a sub0 md =>
+      simp only [Op.creates, Option.some.injEq, Prod.mk.injEq] at hc
+      obtain ⟨rfl, rfl⟩ := hc
+      exact ⟨md, rfl⟩
+    | mint _ _ _ _ _ => simp [Op.creates] at hc
+    | burn _ _ _ _ _ => simp [Op.creates] at hc
+    | chadmin _ _ _ _ _ => simp [Op.creates] at hc
+    | setmeta _ _ _ _ _ _ => simp [Op.creates] at hc
+    | wmint _ _ _ _ => simp [Op.creates] at hc
+    | wburn _ _ _ _ => simp [Op.creates] at hc
+    | wchadmin _ _ _ => simp [Op.creates] at hc
+    | wsetmeta _ _ _ _ _ _ => simp [Op.creates] at hc
+    | send _ _ _ _ => simp [Op.creates] at hc
+    | grant _ _ => simp [Op.creates] at hc
+    | revoke _ _ => simp [Op.creates] at hc
+    | setfee _ => simp [Op.creates] at hc
+
+/-- **non_factory_untouchable** over histories, on the op list (no ghost state): for a denomination
+`d` that no successful create operation of the history produced — in particular every `d` that does
+not deconstruct as `factory/<address>/…`: native, malformed, foreign prefix, non-address creator —
+the sum of the successful mints of `d` and the sum of the successful burns of `d` over the whole
+history are both 0, EVERY mint or burn operation of the history aimed at `d` (message or binding, by
+anybody) was rejected without effect, and the supply of `d` is still the genesis supply. -/
+theorem non_factory_never_minted_or_burned (bal : Addr → Denom → Nat) (supply : Denom → Nat)
+    (dmeta : Denom → Option Nat) (fee : Nat) (gr : Addr → Addr → Bool) (ops : List Op) (d : Denom) :
+    let g := St.genesis bal supply dmeta fee gr
+    (deconstruct d = none → d ∉ createdIn g ops) ∧
+    (d ∉ createdIn g ops →
+      sumMint g d ops = 0 ∧ sumBurn g d ops = 0 ∧ (run g ops).supply d = supply d ∧
+      ∀ pre op post, ops = pre ++ op :: post → op.mintBurnDenom = some d →
+        (step (run g pre) op).2 ≠ .ok ∧ (step (run g pre) op).1 = run g pre) := by
+  intro g
+  have hcr : ∀ l, (run g l).created = (createdIn g l).reverse := by
+    intro l
+    rw [(ghosts_are_history_sums g l d).2.2]
+    simp [g, St.genesis]
+  constructor
+  · intro hd hmem
+    have h1 := (non_factory_supply_constant bal supply dmeta fee gr ops d).1 hd
+    apply h1
+    show d ∈ (run g ops).created
+    rw [hcr ops]; exact List.mem_reverse.mpr hmem
+  · intro hmem
+    have hmem' : d ∉ (run g ops).created := by
+      rw [hcr ops]; intro h; exact hmem (List.mem_reverse.mp h)
+    obtain ⟨_, hm, hb, hs⟩ := (non_factory_supply_constant bal supply dmeta fee gr ops d).2 hmem'
+    obtain ⟨_, _, hm', hb'⟩ := supply_eq_mints_minus_burns bal supply dmeta fee gr ops d
+    refine ⟨by rw [← hm']; exact hm, by rw [← hb']; exact hb, hs, ?_⟩
+    intro pre op post heq hop
+    -- `d` was not created in the prefix either
+    have hpre : d ∉ (run g pre).created := by
+      rw [hcr pre]
+      intro h
+      obtain ⟨q1, o, q2, hq, hok, hn⟩ := mem_createdIn.mp (List.mem_reverse.mp h)
+      apply hmem
+      apply mem_createdIn.mpr
+      refine ⟨q1, o, q2 ++ op :: post, ?_, hok, hn⟩
+      rw [heq, hq]; simp
+    have hadm := ((non_factory_supply_constant bal supply dmeta fee gr pre d).2 hpre).1
+    exact non_factory_untouchable (st := run g pre) (op := op) (st' := (step (run g pre) op).1)
+      (r := (step (run g pre) op).2) rfl hop (Or.inr hadm)
+
+/-- **representation**: `sdk.ValidateDenom` admits no `/` inside a text part (the `/`-separated parts
+are the list elements), so two VALID denominations that differ as lists differ as strings, provided no
+text part spells the bech32 text of an address (`Part.addr`) — the one identification the
+representation cannot see, kept apart by the harness, which renders every address it uses as
+`Part.addr` (observation 3 of Props/C16.md).  All statements of the form `x ≠ d` in this file are
+about list values and are to be read under that proviso. -/
+theorem valid_denom_parts_have_no_slash {d : Denom} (hv : validDenom d = true) :
+    ∀ s, Part.txt s ∈ d → '/' ∉ s.toList := by
+  intro s hs hmem
+  unfold validDenom at hv
+  simp only [Bool.and_eq_true, List.all_eq_true] at hv
+  have h1 := hv.1.1.2 _ hs
+  simp only [Part.charsOk, List.all_eq_true] at h1
+  have h2 := h1 _ hmem
+  revert h2
+  decide
 
 /-- **mint_burn_touch_only_admin** at full strength, for the entry points where it holds: the mint
 message, the burn message, the wasm burn binding, and the wasm mint binding whose `mint_to_address`
@@ -2148,7 +2432,7 @@ def exU : Denom := [.txt "ugrain"]
 def exD : Denom := [.txt "factory", .addr 0, .txt "foo"]
 
 /-- bank: everybody holds 100 ugrain; no factory denoms; fee 10 -/
-def exG : St := St.genesis (fun _ d => if d = exU then 100 else 0) (fun d => if d = exU then 600 else 0) (fun _ => none) 10
+def exG : St := St.genesis (fun _ d => if d = exU then 100 else 0) (fun d => if d = exU then 600 else 0) (fun _ => none) 10 noGrants
 
 def exOps : List Op :=
   [ .create 0 0 0 [.txt "foo"],          -- 0 creates factory/0/foo, pays 10
@@ -2207,7 +2491,7 @@ holds 5 coins under the (not yet created) name `factory/0/foo`, `create` still s
 (`validateCreateDenom` only looks at `HasSupply("foo")`), and after a mint of 7 the supply is 12 while
 Σ mints − Σ burns = 7.  Reproduced on the implementation (Props/C16.md, observation 2). -/
 theorem supply_clause_needs_empty_start :
-    let g := St.genesis (fun _ _ => 0) (fun d => if d = exD then 5 else 0) (fun _ => none) 0
+    let g := St.genesis (fun _ _ => 0) (fun d => if d = exD then 5 else 0) (fun _ => none) 0 noGrants
     let ops : List Op := [.create 0 0 0 [.txt "foo"], .mint 0 0 0 exD 7]
     results g ops = [.ok, .ok] ∧ exD ∈ (run g ops).created ∧
     (run g ops).supply exD = 12 ∧ sumMint g exD ops - sumBurn g exD ops = 7 := by decide
@@ -2225,6 +2509,49 @@ theorem fee_grantee_acts_for_admin :
     (step (run exG pre) (.chadmin 0 1 0 exD (.addr 1))).1.admin exD = some 1 ∧
     (step (run exG (pre ++ [.revoke 0 1])) (.mint 0 1 0 exD 5)).2 = .rej .other ∧
     (step (run exG [.create 0 0 0 [.txt "foo"]]) (.mint 0 1 0 exD 5)).2 = .rej .other := by decide
+
+/-- **namespace**, what the strict reading ("only `c` in person creates inside `factory/c/`") misses.
+Reachable from genesis: after `grant 0 1`, account 1 signs a successful `MsgCreateDenom` naming 0 as
+creator.  The new denomination is `factory/0/bar` — in 0's namespace, with 0 as admin —, the creation
+fee of 10 leaves 0's balance, not 1's; without the allowance (or after its revocation) the same
+transaction is rejected, and a forged signer list (`mode 1`) is rejected in any case.  This is the
+delegation rule of `VerifyAuthorisedSignatureDecorator` (C03), exercised on the implementation by the
+harness (`create 0 <signer≠creator> …`). -/
+theorem grantee_creates_in_granters_namespace :
+    let pre : List Op := [.grant 0 1]
+    let op : Op := .create 0 1 0 [.txt "bar"]
+    let d : Denom := [.txt "factory", .addr 0, .txt "bar"]
+    (step (run exG pre) op).2 = .ok ∧ op.signed = some (1, 0) ∧ op.newDenom = some d ∧
+    (step (run exG pre) op).1.admin d = some 0 ∧
+    (step (run exG pre) op).1.bal 0 exU = 90 ∧ (step (run exG pre) op).1.bal 1 exU = 100 ∧
+    (step exG op).2 = .rej .other ∧
+    (step (run exG (pre ++ [.revoke 0 1])) op).2 = .rej .other ∧
+    (step (run exG pre) (.create 1 1 0 [.txt "bar"])).2 = .rej .pubkey := by decide
+
+/-- … hence "every successful create transaction in `c`'s namespace is signed by `c`" is FALSE without
+the no-allowance hypothesis of `only_creator_signs_create_without_grants`. -/
+theorem create_signed_by_creator_unrestricted_false :
+    ¬ ∀ (pre : List Op) (op : Op) (s c : Addr) (sub : Denom),
+        (step (run exG pre) op).2 = .ok → op.creates = some (c, sub) → op.signed = some (s, c) → s = c := by
+  intro H
+  have h := H [.grant 0 1] (.create 0 1 0 [.txt "bar"]) 1 0 [.txt "bar"] (by decide) rfl rfl
+  revert h
+  decide
+
+/-- the hypotheses of the history-level signer theorems are met through `run` from genesis, with a
+non-trivial conclusion (the grant is found in the prefix); and an allowance that exists at the start
+(`gr 0 1`) authorises without any grant operation -/
+example : ∃ p1 p2, [Op.setfee 3, .grant 0 1, .send 0 2 exU 1] = p1 ++ Op.grant 0 1 :: p2 ∧
+    (step (run exG p1) (.grant 0 1)).2 = .ok := ⟨[.setfee 3], [.send 0 2 exU 1], rfl, by decide⟩
+example :
+    let g := St.genesis (fun _ d => if d = exU then 100 else 0) (fun _ => 0) (fun _ => none) 10
+      (fun c s => decide (c = 0 ∧ s = 1))
+    (step g (.create 0 1 0 [.txt "bar"])).2 = .ok ∧ (step g (.create 0 2 0 [.txt "bar"])).2 = .rej .other := by
+  decide
+/-- `non_factory_never_minted_or_burned`: the native denomination is aimed at, and refused, in `exOps` -/
+example : exU ∉ createdIn exG exOps ∧ sumMint exG exU exOps = 0 ∧
+    (∃ pre post, exOps = pre ++ Op.mint 0 0 0 exU 5 :: post) := by
+  refine ⟨by decide, by decide, exOps.take 12, exOps.drop 13, rfl⟩
 
 /-- **mint_burn_touch_only_admin**, the wasm mint binding really credits somebody else.  Reachable
 from genesis: contract/admin 0 calls `mint_tokens` with `mint_to_address = 3`; the balance of 3 grows
